@@ -588,6 +588,11 @@ func c14run(c *runner.Ctx) (res runner.Result) {
 		}
 	}
 
+	// one case in sixteen: the bulk-load variant of "a rejected request changes nothing"
+	if c.Case%16 == 7 {
+		c14big(c, in, &res)
+	}
+
 	// --- restart
 	var in2 *ms.Inst
 	if pn := ms.Recover(func() { in2 = ms.Open(root, ms.Opts{}) }); pn != "" {
